@@ -79,8 +79,17 @@ func enumObligations(fn *ssa.Function) []bndOb {
 			}
 			add(in, "slice", pathOf(x))
 		case *ssa.MakeSlice:
-			if _, isC := x.Len.(*ssa.Const); !isC {
-				add(in, "make", "make(len="+pathOf(x.Len)+")")
+			_, lenC := x.Len.(*ssa.Const)
+			_, capC := x.Cap.(*ssa.Const)
+			if x.Cap == nil || x.Cap == x.Len {
+				capC = true
+			}
+			if !lenC || !capC {
+				k := "make(len=" + pathOf(x.Len)
+				if !capC {
+					k += ",cap=" + pathOf(x.Cap)
+				}
+				add(in, "make", k+")")
 			}
 		case *ssa.TypeAssert:
 			if !x.CommaOk {
